@@ -91,6 +91,25 @@ def apply(S, ev: dict, mag: int = 0):
         if isinstance(out, ttb.sptensor):
             return ttb.sptensor(out.subs.copy(), out.vals * 2.0 ** 80, out.shape) if out.nnz else out
         return out
+    if op == "div" and rv["kind"] == "dense" and lay in ("swapped", "grown") and isinstance(r, ttb.tensor) and r.data.dtype.kind == "f" \
+            and np.any(r.data == 0):
+        # the zeros of the dense divisor stored as negative zeros (what -T or T * -1 leave behind): x / -0 = -(x / 0), so
+        # the infinite quotients over those zeros come back with the opposite sign and are flipped here
+        zero = r.data == 0
+        T2 = ttb.tensor(np.where(zero, -0.0, r.data))
+        with np.errstate(all="ignore"):
+            out = S / T2
+        if isinstance(out, ttb.sptensor) and out.nnz:
+            v = out.vals.astype(float).copy()
+            flip = np.isinf(v[:, 0]) & zero[tuple(out.subs.T)]
+            v[flip, 0] = -v[flip, 0]
+            return ttb.sptensor(out.subs.copy(), v, out.shape)
+        if isinstance(out, ttb.tensor):
+            d = out.data.astype(float).copy()
+            flip = np.isinf(d) & zero
+            d[flip] = -d[flip]
+            return ttb.tensor(d)
+        return out
     if op in ("add", "sub") and rv["kind"] == "dense" and lay in ("grown", "default") and mag and \
             np.all(r.data == np.round(r.data)):
         # S = S/2 + S/2: the sparse operand holds halves, the dense operand is stored as integers; the second half is
